@@ -9,6 +9,7 @@ import (
 	"net/url"
 	"os"
 	"path/filepath"
+	"regexp"
 	"sync"
 	"time"
 
@@ -89,6 +90,37 @@ func c01DriverProtoFile(p *profile.Profile, path string, stale []byte) (out Term
 		return L(S("no-output"))
 	}
 	q, err := profile.ParseData(b)
+	if err != nil {
+		return L(S("reparse-err"), S(err.Error()))
+	}
+	return L(S("ok"), c01FrameView(q))
+}
+
+// c01SessionProto runs the real interactive loop on p with the given lines (option assignments and
+// `proto >name` / `raw >name` commands) and re-reads the LAST proto file written: every command of a
+// session starts from decode(encode(profile)), so a `proto` issued after the filters were cleared
+// must show the whole profile whatever ran before.
+func c01SessionProto(p *profile.Profile, lines []string, last string) (out Term) {
+	defer func() {
+		if r := recover(); r != nil {
+			out = L(S("panic"), S(fmt.Sprint(r)))
+		}
+	}()
+	restore := driver.VerifGlobals()
+	defer restore()
+	driver.VerifSetCurrentConfig(driver.VerifDefaultConfig())
+	mw := &c10MemWriter{}
+	o := driver.VerifSetDefaults(&plugin.Options{UI: &c10UI{lines: lines}, Writer: mw, Sym: c09Sym{}, Obj: &c09Obj{}})
+	if err := driver.VerifInteractive(p.Copy(), o); err != nil {
+		return L(S("err"), S(err.Error()))
+	}
+	mw.mu.Lock()
+	buf := mw.buf[last]
+	mw.mu.Unlock()
+	if buf == nil {
+		return L(S("no-output"))
+	}
+	q, err := profile.ParseData(buf.Bytes())
 	if err != nil {
 		return L(S("reparse-err"), S(err.Error()))
 	}
@@ -601,6 +633,36 @@ func runC01(c *Ctx) {
 			c.Case("driver-proto-file", L(S("driverproto"), DumpProfile(p), c01AbsURLFiles(p)),
 				c01DriverProtoFile(p, fmt.Sprintf("c01out_%d.pb.gz", i), stale), true, "op:driverproto", fmt.Sprintf("stale:%d", len(stale)))
 		}
+	}
+	// 1d. the same observation inside an interactive session: option assignments, filtered and scaled
+	// proto/raw/top commands, then the options cleared and a final `proto`
+	for i := 0; i < c.Budget(40, 1500); i++ {
+		k := c01Knobs(r)
+		k.Header = false
+		k.MinSampleTypes = 1
+		p := GenProfile(r, k)
+		if p.CheckValid() != nil || len(p.Sample) == 0 {
+			continue
+		}
+		for j, st := range p.SampleType {
+			st.Type = fmt.Sprintf("%s%d", st.Type, j)
+		}
+		fn := "."
+		if len(p.Function) > 0 {
+			fn = regexp.QuoteMeta(p.Function[r.Intn(len(p.Function))].Name)
+		}
+		pre := [][]string{
+			{"focus=" + fn, "proto >a.pb", "focus="},
+			{"divide_by=4", "proto >a.pb", "divide_by=1"},
+			{"hide=" + fn, "raw >a.txt", "hide="},
+			{"tagroot=k", "proto >a.pb", "tagroot="},
+			{"proto " + fn + " >a.pb"},
+			{"ignore=" + fn, "top >a.txt", "proto >a.pb", "ignore="},
+			{},
+		}[i%7]
+		lines := append(append([]string{}, pre...), "proto >b.pb")
+		c.Case("session-proto", L(S("driverproto"), DumpProfile(p), c01AbsURLFiles(p)), c01SessionProto(p, lines, "b.pb"), true,
+			"op:driverproto", fmt.Sprintf("history:%d", i%7))
 	}
 	{ // witness of F34, always generated: a build-id-less mapping whose file name looks like a URL
 		p := &profile.Profile{SampleType: []*profile.ValueType{{Type: "samples", Unit: "count"}}}
